@@ -45,6 +45,8 @@ func verifApply(op string, c *Context, d, x, y *Decimal, aux int32) (int, Condit
 		res, err = c.Ceil(d, x)
 	case "floor":
 		res, err = c.Floor(d, x)
+	case "cbrt":
+		res, err = c.Cbrt(d, x)
 	case "sqrt":
 		res, err = c.Sqrt(d, x)
 	case "exp":
